@@ -128,6 +128,8 @@ type fault struct {
 	inject func(e *env) error
 	// mustFail: the faulty call itself must report an error
 	mustFail bool
+	// defaultLimit: the service keeps the default MaxRequestLength (2 GiB - 1)
+	defaultLimit bool
 }
 
 type env struct {
@@ -367,6 +369,40 @@ func faults() []fault {
 		rf := rf
 		fs = append(fs, fault{name: "raw-peer/" + rf.name, class: "other", kinds: rf.kinds, inject: rf.send})
 	}
+	// six peers at once that only *declare* 2 GiB, against a service with the default limit
+	declare := func(open func(e *env) (net.Conn, error), hello func(conn net.Conn)) func(e *env) error {
+		return func(e *env) error {
+			var conns []net.Conn
+			for i := 0; i < 6; i++ {
+				conn, err := open(e)
+				if err != nil {
+					return err
+				}
+				hello(conn)
+				conns = append(conns, conn)
+			}
+			time.Sleep(300 * time.Millisecond)
+			for _, conn := range conns {
+				conn.Close()
+			}
+			return nil
+		}
+	}
+	openTCP := func(e *env) (net.Conn, error) {
+		network := "tcp"
+		if e.kind == "unix" {
+			network = "unix"
+		}
+		return net.DialTimeout(network, e.srv.Addr, 2*time.Second)
+	}
+	fs = append(fs,
+		fault{name: "raw-peer/six-frames-declaring-2GiB", class: "other", kinds: "tcp unix", defaultLimit: true, inject: declare(openTCP, func(conn net.Conn) {
+			conn.Write(peer.TCPFrameDeclared(1, 0x7ffffff0, []byte("tiny"), false))
+		})},
+		fault{name: "raw-peer/six-http-requests-declaring-2GiB", class: "other", kinds: "http fasthttp ws ws-fasthttp", defaultLimit: true, inject: declare(openTCP, func(conn net.Conn) {
+			conn.Write([]byte("POST / HTTP/1.1\r\nHost: x\r\nContent-Length: 2147483000\r\n\r\ntiny"))
+		})},
+	)
 	return fs
 }
 
@@ -427,11 +463,15 @@ func TestCheck(t *testing.T) {
 		kind := kind
 		r.Case("reverse-provider-panics/"+kind, func(c *h.Case) { reverseFault(c, kind) })
 	}
+	r.Case("client/http/six-responses-declaring-2GiB", func(c *h.Case) { httpDeclared(c) })
 }
 
 func serverFault(c *h.Case, kind string, pl bool, f fault) {
 	r := c.R
 	svc := newService()
+	if f.defaultLimit {
+		svc.MaxRequestLength = 0x7FFFFFFF
+	}
 	if pl {
 		setPool(svc, newPool(4))
 	}
@@ -797,4 +837,66 @@ func closeProvider(p *reverse.Provider) {
 	case <-done:
 	case <-time.After(5 * time.Second):
 	}
+}
+
+// httpDeclared: six calls at once are answered by an http server that declares 2 GiB and sends
+// five bytes. The process must survive and a healthy server must stay reachable.
+func httpDeclared(c *h.Case) {
+	r := c.R
+	svc := newService()
+	srv, err := peer.Start("http", svc)
+	if err != nil {
+		r.Inconclusive(err.Error())
+		return
+	}
+	defer srv.Close()
+	b := srv.NewClient()
+	defer b.Abort()
+	ln, err := net.Listen("tcp", "127.0.0.1:0")
+	if err != nil {
+		r.Inconclusive(err.Error())
+		return
+	}
+	defer ln.Close()
+	go func() {
+		for {
+			conn, err := ln.Accept()
+			if err != nil {
+				return
+			}
+			go func() {
+				defer conn.Close()
+				buf := make([]byte, 4096)
+				conn.SetReadDeadline(time.Now().Add(time.Second))
+				conn.Read(buf)
+				conn.Write([]byte("HTTP/1.1 200 OK\r\nContent-Length: 2147483000\r\n\r\ntiny!"))
+				time.Sleep(600 * time.Millisecond)
+			}()
+		}
+	}()
+	a := core.NewClient("http://" + ln.Addr().String() + "/")
+	defer a.Abort()
+	var wg sync.WaitGroup
+	for i := 0; i < 6; i++ {
+		wg.Add(1)
+		go func() {
+			defer wg.Done()
+			ctx, cancel := context.WithTimeout(context.Background(), 400*time.Millisecond)
+			defer cancel()
+			res, err := a.InvokeContext(ctx, "ok", []interface{}{1})
+			r.Eval(1)
+			if err == nil {
+				c.Violation("malformed-response-accepted:http:declared-2GiB", fmt.Sprintf("returned %v", res), nil)
+			}
+		}()
+	}
+	for i := 0; i < 20; i++ {
+		if err := sentinel(b, i); err != nil {
+			c.Violation("other-client-affected-by-malformed-response:http:declared-2GiB", err.Error(), nil)
+			break
+		}
+		time.Sleep(10 * time.Millisecond)
+	}
+	wg.Wait()
+	r.Distinct("client|http|declared-2GiB")
 }
